@@ -270,7 +270,10 @@ def run(ctx):
 
     # ---------------- R2 release scope
     cone = sorted(x for x in ctx.cone([NR]) if x.startswith(MOD) and "{closure" not in x)
-    ck.ob("C05-R2", NR, "release-cone", cone == sorted([NR, MOD + "remove_mapping", MOD + "fails_when_released"]), detail=str([c[len(MOD):] for c in cone]))
+    # (new helpers that have been copied into their callers are not functions of their own here; fails_when_released may
+    # have been written out in place)
+    cone = [c for c in cone if c not in ctx.F.spliced_away]
+    ck.ob("C05-R2", NR, "release-cone", set(cone) - {MOD + "fails_when_released"} == {NR, MOD + "remove_mapping"}, detail=str([c[len(MOD):] for c in cone]))
     for tx in A.txs:
         if tx.fn in cone and any(e.kind == "EMIT" for e in tx.effs):
             if tx.fn == NR:
